@@ -135,7 +135,7 @@ def expand_helpers(model: Model, cls: ClassInfo, func: ast.FunctionDef, depth: i
         h = r[1]
         if h is func or h.name == func.name or len(h.body) > 25 or h.args.vararg or h.args.kwarg:
             return None
-        if any(d for d in h.decorator_list):
+        if any(unparse(d) != "staticmethod" for d in h.decorator_list):
             return None
         # returns only as the last top-level statement
         rets = [n for n in walk_no_nested(h) if isinstance(n, ast.Return)]
@@ -144,7 +144,8 @@ def expand_helpers(model: Model, cls: ClassInfo, func: ast.FunctionDef, depth: i
         return h
 
     def instantiate(h: ast.FunctionDef, call: ast.Call):
-        params = [a.arg for a in h.args.args[1:]]
+        static = any(unparse(d) == "staticmethod" for d in h.decorator_list)
+        params = [a.arg for a in (h.args.args if static else h.args.args[1:])]
         env = {}
         for p, a in zip(params, call.args):
             env[p] = a
@@ -165,7 +166,7 @@ def expand_helpers(model: Model, cls: ClassInfo, func: ast.FunctionDef, depth: i
                 pre.append(ast.Assign(targets=[ast.Name(id=p, ctx=ast.Store())], value=copy.deepcopy(a), lineno=call.lineno, col_offset=0))
             else:
                 sub_env[p] = a
-        hself = h.args.args[0].arg
+        hself = h.args.args[0].arg if (h.args.args and not static) else selfn
         if hself != selfn:
             sub_env[hself] = ast.Name(id=selfn, ctx=ast.Load())
         body = [ast.fix_missing_locations(_Subst(sub_env).visit(copy.deepcopy(s))) for s in h.body
@@ -224,6 +225,37 @@ def expand_helpers(model: Model, cls: ClassInfo, func: ast.FunctionDef, depth: i
     if depth > 1:
         return expand_helpers(model, cls, f2, depth - 1, skip) if unparse(f2) != unparse(func) else f2
     return f2
+
+
+def inline_pure_calls(cls: ClassInfo, expr: ast.AST, selfn: str = "self", depth: int = 2) -> ast.AST:
+    """Copy of `expr` in which calls `self.h(args)` / `Cls.h(args)` to methods of `cls` whose body is a single `return E`
+    (after an optional docstring) are replaced by E with the parameters substituted (a predicate extracted into a helper)."""
+    if depth <= 0:
+        return expr
+
+    class _In(ast.NodeTransformer):
+        def visit_Call(self, node):
+            self.generic_visit(node)
+            f = node.func
+            if not (isinstance(f, ast.Attribute) and isinstance(f.value, ast.Name) and f.value.id in (selfn, cls.name)) or node.keywords:
+                return node
+            r = cls.find_method(f.attr) or cls.find_method(mangle(cls.name, f.attr))
+            if r is None:
+                return node
+            h = r[1]
+            body = [s for s in h.body if not (isinstance(s, ast.Expr) and isinstance(s.value, ast.Constant))]
+            if len(body) != 1 or not isinstance(body[0], ast.Return) or body[0].value is None or h.args.vararg or h.args.kwarg:
+                return node
+            static = any(unparse(d) in ("staticmethod",) for d in h.decorator_list)
+            params = [a.arg for a in h.args.args[(0 if static else 1):]]
+            if len(params) != len(node.args):
+                return node
+            env = dict(zip(params, node.args))
+            if not static and h.args.args:
+                env[h.args.args[0].arg] = ast.Name(id=selfn, ctx=ast.Load())
+            return ast.copy_location(inline_pure_calls(cls, _Subst(env).visit(copy.deepcopy(body[0].value)), selfn, depth - 1), node)
+
+    return ast.fix_missing_locations(_In().visit(copy.deepcopy(expr)))
 
 
 def visits_each_in_order(model: Model, cls: ClassInfo, func: ast.FunctionDef, source_texts) -> bool:
